@@ -43,7 +43,7 @@ def check(src, rep):
     emit(rep, m, buffer_contracts(m), RULE)
     from sa.cross import include
     include(rep, src, "C04", {"R1", "R2", "R3", "R4", "R5"}, "R5", "every delivered well-formed readout is reported valid")
-    include(rep, src, "C14", {"R1"}, "R6", "read() returns the readouts of a clean stream instead of raising")
+    include(rep, src, "C14", {"R1"}, "R6", "read() returns the readouts of a clean stream instead of raising", at_prefix=("dlde.",))
     rep.floor("reference rows", sum(1 for r in conf if r.tag.startswith("row:")), 5)
     rep.floor("line step paths", len(m.paths), 6)
 
